@@ -30,9 +30,13 @@ def ob_group(n, ncols, kindset, incname, same, join, ohead, otail, budget_s=120)
     symx, mods = _setup()
     G = mods["simfile.notes.group"]; N = mods["simfile.notes"]
     kinds = {3: nc.KINDS3, 5: nc.KINDS5, 6: nc.KINDS6, 7: nc.KINDS7}[kindset]
-    include = nc.INCLUDE_SETS[incname]
 
     def run():
+        if incname == "subsets":   # every subset of the kinds of this obligation, by solver-guided case split
+            idx = symx.choose("inc", 2 ** len(kinds))
+            include = tuple(k for i, k in enumerate(kinds) if (idx >> i) & 1)
+        else:
+            include = nc.INCLUDE_SETS[incname]
         notes, meta = nc.gen_notes(symx, mods, n, ncols, kinds)
         try:
             out = list(G.group_notes(notes, **_opts(G, same, join, ohead, otail, include, N)))
@@ -116,6 +120,14 @@ def obligations(tier):
         add_group(3, 6, inc, "JOIN_BY_NOTE_TYPE", True, "KEEP_ORPHAN", "KEEP_ORPHAN")
         add_group(3, 6, inc, "JOIN_ALL", True, "DROP_ORPHAN", "RAISE_EXCEPTION")
     add_group(2, 7, "all", "JOIN_BY_NOTE_TYPE", True, "KEEP_ORPHAN", "DROP_ORPHAN")
+    # every subset of the five kinds as include_note_types (2 notes), for each orphan policy pair; and two more named sets
+    for oh in nc.POL:
+        for ot in nc.POL:
+            add_group(2, 5, "subsets", "KEEP_SEPARATE" if oh == ot else "JOIN_ALL", True, oh, ot)
+    add_group(2, 5, "subsets", "JOIN_BY_NOTE_TYPE", False, "RAISE_EXCEPTION", "RAISE_EXCEPTION")
+    for inc in ("taptail", "tailmine"):
+        add_group(3, 5, inc, "KEEP_SEPARATE", True, "RAISE_EXCEPTION", "RAISE_EXCEPTION")
+        add_group(3, 5, inc, "JOIN_ALL", True, "KEEP_ORPHAN", "DROP_ORPHAN")
     # five notes over {TAP, HOLD_HEAD, TAIL}: several holds open at once with earlier notes still buffered behind them
     for oh in nc.POL:
         for ot in (("KEEP_ORPHAN",) if tier == "quick" else nc.POL):
@@ -152,7 +164,7 @@ def replay(data):
     if data["func"] == "ob_group":
         n, ncols, kindset, incname, same, join, oh, ot = a
         kinds = {3: nc.KINDS3, 5: nc.KINDS5, 6: nc.KINDS6, 7: nc.KINDS7}[kindset]
-        include = nc.INCLUDE_SETS[incname]
+        include = tuple(k for i, k in enumerate(kinds) if (int(m.get("inc", 0)) >> i) & 1) if incname == "subsets" else nc.INCLUDE_SETS[incname]
         notes = nc.model_notes(m, n, ncols, kinds)
         kw = dict(same_beat_notes=G.SameBeatNotes[same], join_heads_to_tails=join, orphaned_head=G.OrphanedNotes[oh], orphaned_tail=G.OrphanedNotes[ot])
         if include is not None:
